@@ -206,14 +206,19 @@ def flit(v):
 
 # ---------------------------------------------------------------- bitwise operators
 def bitop(opname, a, b):
-    """a & b, a | b, a ^ b.  numpy hands a sized scalar to an object array as a plain Python int,
-    which would lose its dtype (and with it numpy's promotion rules): keep it as a typed constant."""
-    if core.active():
-        if _symbolic_array(a) and isinstance(b, np.integer):
-            b = BV(int(b), b.dtype)
-        elif _symbolic_array(b) and isinstance(a, np.integer):
-            a = BV(int(a), a.dtype)
-    return getattr(operator, opname)(a, b)
+    """a & b, a | b, a ^ b, and (rewrite 9b) a + b, a - b, a * b, a ** b, a << b, a >> b, a // b.
+    numpy hands a sized scalar to an object array as a plain Python int, which would lose its dtype
+    (and with it numpy's promotion rules): keep it as a typed constant."""
+    if isinstance(a, np.integer) or isinstance(b, np.integer):
+        if core.active():
+            if _symbolic_array(a) and isinstance(b, np.integer):
+                b = BV(int(b), b.dtype)
+            elif _symbolic_array(b) and isinstance(a, np.integer):
+                a = BV(int(a), a.dtype)
+    return _OPS[opname](a, b)
+
+
+_OPS = {n: getattr(operator, n) for n in ('and_', 'or_', 'xor', 'add', 'sub', 'mul', 'pow', 'lshift', 'rshift', 'floordiv')}
 
 
 # ---------------------------------------------------------------- 6. dtype
